@@ -150,6 +150,10 @@ mut('C12-join-global-live-count', 'C12', P, JOIN, "var (\n\tjoinMu   sync.Mutex\
 mut('C14-fromslice-clears-consumed', 'C14', SQ, "\ts.el = s.el[1:]\n\treturn true", "\tvar zero T\n\ts.el[0] = zero\n\ts.el = s.el[1:]\n\treturn true", "consumed slots of the caller's slice are zeroed")
 mut('C08-queue-singleton-per-type', 'C08', Q, "func newq[A any]() *queue[A] {\n\tqueue := &queue[A]{}\n\tqueue.pool.New = func() interface{} { return &q[A]{} }\n\treturn queue\n}", "var queues sync.Map\n\nfunc newq[A any]() *queue[A] {\n\tkey := any((*A)(nil))\n\tif v, ok := queues.Load(key); ok {\n\t\treturn v.(*queue[A])\n\t}\n\tqueue := &queue[A]{}\n\tqueue.pool.New = func() interface{} { return &q[A]{} }\n\tqueues.Store(key, queue)\n\treturn queue\n}", 'one queue per element type, reused by every pipe of that type: correct while one pipe of a type is alive at a time')
 mut('C09-map-global-live-count', 'C09', FK, "\twg.Add(par)\n\tfor i := 1; i <= par; i++ {\n\t\tgo pmap()\n\t}\n\n\tgo func() {\n\t\twg.Wait()\n\t\tclose(out)\n\t\tclose(exx)\n\t}()\n\n\treturn out, exx\n}\n\n// Partition", "\twg.Add(par)\n\tmapLiveMu.Lock()\n\tmapLive++\n\tmapLiveMu.Unlock()\n\tfor i := 1; i <= par; i++ {\n\t\tgo pmap()\n\t}\n\n\tgo func() {\n\t\twg.Wait()\n\t\tmapLiveMu.Lock()\n\t\tmapLive--\n\t\tlast := mapLive == 0\n\t\tmapLiveMu.Unlock()\n\t\tif last {\n\t\t\tclose(out)\n\t\t\tclose(exx)\n\t\t}\n\t}()\n\n\treturn out, exx\n}\n\nvar (\n\tmapLiveMu sync.Mutex\n\tmapLive   int\n)\n\n// Partition", 'only the last fork.Map alive closes its channels')
+THR = "func Throttling[A any](ctx context.Context, in <-chan A, ops int, interval time.Duration) <-chan A {\n\tout := make(chan A, cap(in))\n\tctl := make(chan struct{}, ops)\n\n\tgo func() {\n\t\tdefer close(ctl)\n"
+mut('C13-pacer-shared-per-rate', 'C13', P, THR, "var (\n\tpacersMu sync.Mutex\n\tpacers   = map[[2]int64]chan struct{}{}\n)\n\nfunc Throttling[A any](ctx context.Context, in <-chan A, ops int, interval time.Duration) <-chan A {\n\tout := make(chan A, cap(in))\n\tkey := [2]int64{int64(ops), int64(interval)}\n\tpacersMu.Lock()\n\tctl, shared := pacers[key]\n\tif !shared {\n\t\tctl = make(chan struct{}, ops)\n\t\tpacers[key] = ctl\n\t}\n\tpacersMu.Unlock()\n\n\tgo func() {\n\t\tif shared {\n\t\t\treturn\n\t\t}\n\t\tdefer func() {\n\t\t\tpacersMu.Lock()\n\t\t\tdelete(pacers, key)\n\t\t\tpacersMu.Unlock()\n\t\t}()\n\t\tdefer close(ctl)\n", 'one pacer per (ops, interval), shared by the Throttling stages alive at the same time')
+EMIT = "func Emit[T any](ctx context.Context, cap int, frequency time.Duration, f F[int, T]) (<-chan T, <-chan error) {\n\tout := make(chan T, cap)\n\texx := f.errch(cap)\n\n\tgo func() {\n\t\tdefer close(out)\n\t\tdefer close(exx)\n\n\t\tvar (\n\t\t\tval T\n\t\t\terr error\n\t\t)\n\n\t\tfor i := 0; true; i++ {\n\t\t\ttime.Sleep(frequency)\n\n\t\t\tval, err = f.Apply(i)\n"
+mut('C11-emit-shared-index', 'C11', P, EMIT, "var (\n\temitMu  sync.Mutex\n\temitSeq int\n)\n\n" + EMIT.replace("\tgo func() {\n\t\tdefer close(out)", "\temitMu.Lock()\n\temitSeq = 0\n\temitMu.Unlock()\n\n\tgo func() {\n\t\tdefer close(out)").replace("\t\tfor i := 0; true; i++ {\n\t\t\ttime.Sleep(frequency)\n\n\t\t\tval, err = f.Apply(i)\n", "\t\tfor {\n\t\t\ttime.Sleep(frequency)\n\n\t\t\temitMu.Lock()\n\t\t\ti := emitSeq\n\t\t\temitSeq++\n\t\t\temitMu.Unlock()\n\t\t\tval, err = f.Apply(i)\n"), 'the index lives in a package-level variable: correct for one Emit at a time')
 
 EQUIVALENT = {'C02-no-container-check', 'C04-codec-get-skips-fmap', 'C06-throttle-data-no-ctx', 'C15-map-stale-key', 'C05-filter-or', 'C05-partition-swapped-capacity', 'C10-empty-counted-per-worker', 'C14-foreach-swallows-last-error', 'C19-slice-cons-append', 'C04-setter-get-leaks'}
 
